@@ -3,6 +3,7 @@ import PrologVerif.Driver.C18
 import PrologVerif.Driver.C02
 import PrologVerif.Driver.C03
 import PrologVerif.Driver.C10
+import PrologVerif.Driver.C13
 import PrologVerif.Driver.C01
 import PrologVerif.Driver.C08
 import PrologVerif.Driver.C14
@@ -20,6 +21,7 @@ def handlers : List (String × Handler) :=
     ("c02.env", C02.envHandler),
     ("c03.force", C03.handler),
     ("c10.compile", C10.handler),
+    ("c13.latency", C13.latencyHandler),
     ("c10.observe", C10.observeHandler),
     ("c08.compare", C08.compareHandler),
     ("c08.sort", C08.sortHandler),
